@@ -17,7 +17,7 @@ from harness.common import Ck, coq_list, coq_str, coq_bytes, parse_coq_N_list
 from translate import c19_walk, c19_state
 
 MANIFEST = dict(
-    technique='Rocq proof (backends as translated operation lists refining one folded-name map for every query string; walk_folder exactness for the sound folder forms; RawFileSystem lookup/walk from its translated operations; chain first-match / priority / prefix / de-duplication laws; every public lookup form of a chain - [], in, _get_file, _file_exists, open_bin, open_str, the bytes read, walk_folder, iter - equal to one specification function for members of any backend kind; the VPK content expression and the container reader FileInfo.read() as translated expressions that return the stored bytes in every placement) + fail-closed ast translator working on a canonical form of filesys.py / vpk.py (semantic normalisation, 15 rewrite rules, the rewritten module is executed and compared with the real one on every run) ; round 4: the property as one statement (c19_property: source_ok cfg -> property_holds cfg, instantiated at the generated configuration on every run), add_sys over whole histories of calls with its early-return guard translated, the names RawFileSystem.walk_folder lists as a translated shape, the walk of chains with directory members from a member interface, subfolder prefixes and folder arguments in any spelling without "..") + instance obligations and two groups of instance theorems at the generated configuration + vm_compute correspondence over the four real backends and chains + differential oracle (every call into the implementation under an alarm: a hang or an unexpected exception is a violation with its input)',
+    technique='Rocq proof (backends as translated operation lists refining one folded-name map for every query string; walk_folder exactness for the sound folder forms; RawFileSystem lookup/walk from its translated operations; chain first-match / priority / prefix / de-duplication laws; every public lookup form of a chain - [], in, _get_file, _file_exists, open_bin, open_str, the bytes read, walk_folder, iter - equal to one specification function for members of any backend kind; the VPK content expression and the container reader FileInfo.read() as translated expressions that return the stored bytes in every placement) + fail-closed ast translator working on a canonical form of filesys.py / vpk.py (semantic normalisation, 15 rewrite rules, the rewritten module is executed and compared with the real one on every run) ; round 4: the property as one statement (c19_property: source_ok cfg -> property_holds cfg, instantiated at the generated configuration on every run), add_sys over whole histories of calls with its early-return guard translated, the names RawFileSystem.walk_folder lists as a translated shape, the walk of chains with directory members from a member interface, subfolder prefixes and folder arguments in any spelling without "..") + instance obligations and two groups of instance theorems at the generated configuration + vm_compute correspondence over the four real backends and chains + differential oracle (every call into the implementation under an alarm: a hang or an unexpected exception is a violation with its input); round 5: a census of stores (translate/c19_state.py: every store a walk / lookup method of filesys.py or the reading side of vpk.py makes into self, a class, a module-level object or a mutable default, and where it stands relative to the yields of a generator - produced and judged also when the shape translator fails closed) with a model of walk generators consumed completely or given up after k items and of chain lookups between edits of `systems` (SM/FsState.v), c19_property_over_histories, and history oracles (abandoned / interleaved / failing walks followed by complete walks on every backend and on chains, failed lookups repeated, direct edits of chain.systems after lookups)',
     text='Theorems in Props/C19.v, generic over a backend record of normalisation operations regenerated from filesys.py on every run. '
          'Lookup: backends whose query functions convert the slashes, normalise the path and fold the case (today\'s source, obligation *_keys_normalise_every_spelling) agree with each other and with the specification map (folded name -> last stored file) on _get_file, _file_exists and open_bin for EVERY query string; empty and "." segments, either slash and letter case are proved insignificant (c19_normpath_noise, c19_lookup_noise_insensitive); any other recognised form agrees on queries normpath leaves alone (c19_lookup_agree); the pinned forms are refuted on "./x" and ".\\x". '
          'Bytes: what VPKFileSystem.open_bin/open_str read is a translated expression over the FileInfo, and FileInfo.read() itself is translated from vpk.py with the slice displacements found in the source; expressions recognised as whole return the stored bytes for every split between preload and rest, for the directory tail, a numbered archive and a single-file VPK, wherever the rest lies (c19_vpk_content_whole_all_placements, c19_vpk_open_same_bytes, c19_vpk_reader_whole_all_placements, c19_vpk_open_through_reader); the preload shortcut and the one-byte-short slice are refuted. '
@@ -26,8 +26,9 @@ MANIFEST = dict(
          'FileSystemChain: c19_chain_every_form_spec - for every query string and every list of members of whatever backend kind (no premise on the prefixes) chain[q] / _get_file(q), the resolution of open_bin / open_str(q), q in chain / _file_exists(q) in every recognised sound shape and the bytes read from the handle are the specification function chain_spec (first member, in priority order, whose files contain subfolder/name up to case, slash kind and redundant segments); hence the backend kind of a member is unobservable through a chain (c19_chain_backend_kind_unobservable); chains that also contain directory backends answer like chain_spec on queries that are exact for those members (c19_chain_with_directory_members_spec, premise shown necessary); a _file_exists loop that re-assigns the joined name is refuted (c19_chain_exists_carried_name_refuted). Priority insertion first / plain insertion last (both add_sys branches translated); the de-duplicated walk lists each folded name once keeping the first member\'s entry, the dict-overwrite shape is refuted. '
          'Composition (c19_chain_walk_lookup_closed, c19_chain_walk_complete, c19_chain_walk_every_entry_spec, c19_chain_walk_lists_spec, c19_chain_iter_lists_spec): for members with empty or clean prefixes and an empty or clean folder, every (path, File) the de-duplicated walk lists is the specification\'s answer for path (it looks up in every form and reads the listed bytes), and every clean name the specification serves inside the folder is listed with that File; iter(chain) lists every clean name served. All of these are re-instantiated at the generated configuration on every run. '
          'Round 4 - c19_property: for every configuration (three backend records, VPK content expressions and reader, the directory backend\'s operations and listed-name shape, add_sys guard and branch actions, _file_exists mode, de-duplication mode / key / relative-name mode) that passes the named recognisers, the three sentences of the property hold (backends_agree, walks_exact, chains_honour_priority); today\'s generated configuration passes (obligation property_hypotheses_hold_for_the_generated_configuration, instance theorem today_c19_property). add_sys: c19_chain_history_order / _mounts_all / _spec - after ANY sequence of add_sys calls (method always inserts, first for priority, last otherwise) the chain is the priority members latest first then the others in order, and every lookup form is the specification over that order; a guard `if (sys, prefix) in self.systems: return` is translated (chain_add_guard) and refuted (second archive under the same label dropped, priority re-add ignored). RawFileSystem.walk_folder: how the listed name is computed is translated (raw_walk_relmode); relpath of the joined file name lists stored names (c19_raw_walk_lists_stored_names), relpath of the directory joined with the file name lists root files as "./x" (refuted, also inside a chain). Walk of chains: c19_chain_walk_from_member_interface proves the composition from what the chain needs from a member (lists_sound / lists_complete); folding backends and the directory backend (on folders exact for it - premise shown necessary) satisfy it, so c19_chain_walk_with_directory_members covers chains that contain RawFileSystem; c19_chain_walk_any_spelling / _any_member / _any_member_any_spelling extend it to prefixes and folders spelt with redundant separators and "." segments in either slash, for folding and directory members (spells; c19_spellings_one_normal_form). c19_case_duplicate_winner_needs_order: no reader of a container that is the same for both insertion orders serves "the file stored last" - why the known finding cannot be repaired inside VPKFileSystem. '
-         'The generated model is compared with the real Virtual/Zip/VPK/Raw backends (lookups in all spellings incl. open_str, VPKs written in 7 data placements, walks of normalised and un-normalised folders) and with chains ([], in, open_bin, open_str, walk_folder, walk_folder_repeat); a reference oracle written from the property checks every public form on the four real backends and on chains of up to 4 members in all orderings, file contents for 5 VPK placement classes with sizes around the preload limits (1024, 65535), plus non-ASCII case folding for the in-memory and zip backends.',
-    note='Trusted: Coq kernel + vm_compute, translate/c19_walk.py (its canonicalisation rewrites are meant to be equivalences of Python programs; on every run the rewritten filesys.py is compiled, executed and compared with the real classes on every lookup form, walks and chains - obligations translate:canonical-form-runs / -is-equivalent), zipfile, the VPK writer of vpk.py (where the bytes are put; the reader is translated; VPK.fileinfos only through a shape check), which numbered archive file is opened (C13), the OS directory semantics (RawFileSystem: exact names via os.path.isfile/open/os.walk after abspath; RootEscapeError belongs to C18). Model restrictions: ASCII case folding only in the model (non-ASCII casefold is searched on the in-memory and zip backends; VPK names are ASCII); stored names are clean relative "/" paths; ".." segments are modelled (full posixpath.normpath) and compared by correspondence but the general noise theorem covers only empty and "." segments; the walk/composition theorems cover prefixes and folders in any spelling of an empty or clean path without ".." (redundant separators, "." segments, either slash; ".." in a prefix or folder: correspondence and oracle), directory members need a cleanly spelt folder that is exact for them - the chain lookup theorem has no premise on prefixes; absolute paths are outside the statement; reading a slice of the wrong home is modelled as returning nothing (such readers are never recognised as whole). Which of two stored names differing only in case wins depends on container order (c19_lookup_order_matters_for_case_duplicates); VPK regroups files, see known finding case-duplicate-winner-vpk-differs. Observations (not violations): RawFileSystem.open_bin of a directory raises IsADirectoryError where the others raise FileNotFoundError; File.path of a lookup differs per backend.',
+         'The generated model is compared with the real Virtual/Zip/VPK/Raw backends (lookups in all spellings incl. open_str, VPKs written in 7 data placements, walks of normalised and un-normalised folders) and with chains ([], in, open_bin, open_str, walk_folder, walk_folder_repeat); a reference oracle written from the property checks every public form on the four real backends and on chains of up to 4 members in all orderings, file contents for 5 VPK placement classes with sizes around the preload limits (1024, 65535), plus non-ASCII case folding for the in-memory and zip backends.'
+         ' Round 5 - programs instead of single calls: the census of stores is a generated object (one fs_census per class: stores of the walk methods, stores of the lookup methods; helpers of filesys.py; the reading side of vpk.py) and every group must be empty (obligations <class>_walks_keep_no_state / _lookups_keep_no_state, filesys_helpers_keep_no_state, vpk_reader_keeps_no_state). c19_walk_history_irrelevant: for code that stores nothing (or stores a folder listing only after its scan has finished), after ANY history of walks - complete, or given up after any number of items by break / any() / next(iter(fs)) / an exception / close() - a complete walk lists the complete listing, and every walk hands its consumer a prefix of it; the memo registered before the scan and filled while yielding (seeded fault c19_7) is refuted (c19_walk_memo_while_yielding_refuted), and a store with a yield still to come puts code into that class (c19_census_decides_discipline). c19_chain_lookup_history: lookups that store nothing answer chain_get over the members mounted after any history of lookups, add_sys calls and direct edits of the public list systems; remembered member positions (c19_8) are refuted for systems.pop(0) and shown to need the direct edit (c19_chain_position_memo_refuted, _add_sys_resets). c19_property_over_histories: source_ok cfg -> state_ok census -> the three sentences for every call and histories_irrelevant; instantiated at both generated objects on every run.',
+    note='Trusted: Coq kernel + vm_compute, translate/c19_walk.py (its canonicalisation rewrites are meant to be equivalences of Python programs; on every run the rewritten filesys.py is compiled, executed and compared with the real classes on every lookup form, walks and chains - obligations translate:canonical-form-runs / -is-equivalent), zipfile, the VPK writer of vpk.py (where the bytes are put; the reader is translated; VPK.fileinfos only through a shape check), which numbered archive file is opened (C13), the OS directory semantics (RawFileSystem: exact names via os.path.isfile/open/os.walk after abspath; RootEscapeError belongs to C18). Model restrictions: ASCII case folding only in the model (non-ASCII casefold is searched on the in-memory and zip backends; VPK names are ASCII); stored names are clean relative "/" paths; ".." segments are modelled (full posixpath.normpath) and compared by correspondence but the general noise theorem covers only empty and "." segments; the walk/composition theorems cover prefixes and folders in any spelling of an empty or clean path without ".." (redundant separators, "." segments, either slash; ".." in a prefix or folder: correspondence and oracle), directory members need a cleanly spelt folder that is exact for them - the chain lookup theorem has no premise on prefixes; absolute paths are outside the statement; reading a slice of the wrong home is modelled as returning nothing (such readers are never recognised as whole). Which of two stored names differing only in case wins depends on container order (c19_lookup_order_matters_for_case_duplicates); VPK regroups files, see known finding case-duplicate-winner-vpk-differs. Round 5: the census is syntactic - it trusts that Python locals and generator frames die with the call, that the functions of os / zipfile / io the methods call keep no state of their own that matters (zipfile.ZipFile.open shares a file position under its own lock), and that callers do not mutate the ZipInfo / FileInfo objects handed out; aliases are followed through assignments, loops, with, get/setdefault/pop/values/items, not through calls of other functions; the reading of the census as a walk discipline (SM/FsState.v) models sequential histories (each generator dropped before the next walk starts; interleaved walks are searched); a listing stored after the scan has finished is proved harmless but alarms (the census cannot check what is stored). Observations (not violations): RawFileSystem.open_bin of a directory raises IsADirectoryError where the others raise FileNotFoundError; File.path of a lookup differs per backend.',
 )
 
 IMPORTS = ['Coq.Lists.List', 'Coq.NArith.NArith', 'Coq.Bool.Bool', 'SV.SM.FsChain', 'SV.SM.FsChainForms', 'SV.SM.FsChainRead', 'SV.SM.FsChainAdd', 'SV.SM.FsChainNoise', 'SV.SM.FsChainProperty', 'SV.Gen.FsWalk_gen']
@@ -945,6 +946,23 @@ def check_walk_histories(bt: 'Built', files, rng: random.Random, stats=None, his
                 hist('walk_history_mode', mode)
             if stats is not None:
                 stats('walk_history_observations', 1)
+        # File objects handed out by a complete walk stay valid: they are opened after further walks (one given up) and
+        # a failed lookup have happened on the object
+        hrep = {'op': 'backends', 'files': [(a, b.decode()) for a, b in files], 'seed': 0, 'history': 'handles of a complete walk opened after later calls'}
+        try:
+            handles = list(fs.walk_folder(''))
+            abandon_walk(lambda: fs.walk_folder(''), 'take1')
+            impl_lookup(fs, 'nonexistent.txt')
+            for h in handles:
+                with h.open_bin() as fh:
+                    got = fh.read()
+                want = {dict(files).get(h.path)} if name == 'raw' else {x for _, x in sm.get(fold(h.path), [])}
+                if got not in want:
+                    out.append((f'walk-{name}-handle-stale', f'{name}: the File {h.path!r} listed by a walk, opened after later calls, reads {got!r}', hrep))
+            if stats is not None:
+                stats('walk_history_observations', len(handles))
+        except Exception as e:      # noqa: BLE001
+            out.append((f'walk-{name}-handle-exception', f'{name}: opening the Files of a walk after later calls raised {type(e).__name__}: {e}', hrep))
         # lookups are untouched by the walks that went before
         for nm, b in files:
             ex, got, _op = impl_lookup(fs, nm)
@@ -2016,6 +2034,12 @@ def run(ck: Ck) -> None:
                'placement (preload only, directory tail, numbered archive, single file, no limit) with file sizes 0-100 and around 1024 / 65535; '
                'chains also over archives mounted under one label (distinct objects that compare equal), a mounted member re-added with priority, and '
                'lookups / walks between the add_sys calls. '
+               'Histories (round 5): on every backend of every file set, for the root and up to three folders, a walk (or iter) is given up in one of '
+               '9 ways (0, 1, 2 or all-but-one items taken, any(), exception in the loop body, throw(), close(), a second walk plus walks of other '
+               'folders while the first is suspended), then the folder is walked completely under another spelling and the object is iterated; every '
+               'absent name is looked up again in every form after all forms failed once; the same on chains (walk_folder, walk_folder_repeat, iter), '
+               'where the walk between add_sys calls is given up half of the time; after all lookups and walks three random direct edits of '
+               'chain.systems (pop(0), reverse, rotate, del [-1], swap, insert a copy) each followed by every lookup form of every name and the root walk. '
                'Distinct = different name list (sets) or member tuple (chains); non-trivial = at least two files / two members.')
     ck.trusted.append('hand-written model SM/FsChain.v interpreted over Gen/FsWalk_gen.v (tied by correspondence on every run)')
     ck.trusted.append('zipfile, srctools.vpk.VPK writer/reader and the OS directory tree used to build the real backends; posixpath')
@@ -2024,6 +2048,9 @@ def run(ck: Ck) -> None:
                       'locals and module constants, loop/comprehension, if-continue, try/else, for/else, keyword arguments, SSA renaming) are '
                       'equivalences of Python programs; the rewritten module is executed and compared with the real one on every run '
                       '(canonical_validation), the rules themselves are not proved')
+    ck.trusted.append('translate/c19_state.py: the census of stores is syntactic (assignments, mutating method calls, setattr, global/nonlocal, memoising '
+                      'decorators; aliases through assignments / loops / with / get / setdefault); Python locals and generator frames die with the call; '
+                      'os, zipfile and io keep no state that matters between the calls')
     ck.trusted.append('vpk.py FileInfo.read() is translated (slice displacements, homes, tests); FileInfo.write (where the bytes are put) and the '
                       'name of the numbered archive that is opened are trusted here (property C13)')
     ck.assumptions.append('case folding is modelled for ASCII only (non-ASCII casefold: oracle on the in-memory and zip backends); stored names are clean relative paths using "/"')
